@@ -285,8 +285,13 @@ class TranslatorC(Translator):
                         ">>": "rshift",
                         "a>>": "a_rshift"
                     }
-                    out = "bignum_%s(%s, bignum_to_uint64(%s))" % (
-                        op[expr.op], arg0, arg1
+                    # bn.c takes the count as an int: saturate it to the size
+                    # (shifting by the size or more leaves no bit of the source)
+                    count = "(bignum_is_inf_unsigned(%s, bignum_from_uint64(%d)) ? (int)bignum_to_uint64(%s) : %d)" % (
+                        arg1, expr.size, arg1, expr.size
+                    )
+                    out = "bignum_%s(%s, %s)" % (
+                        op[expr.op], arg0, count
                     )
                     out = "bignum_mask(%s, %d)"% (out, expr.size)
                 return out
@@ -344,8 +349,13 @@ class TranslatorC(Translator):
                         ">>>": "ror",
                         "<<<": "rol"
                     }
-                    out = "bignum_%s(%s, %d, bignum_to_uint64(%s))" % (
-                        op[expr.op], arg0, expr.size, arg1
+                    # bn.c takes the count as an int in [0, size]: reduce it
+                    # modulo the size
+                    count = "(int)bignum_to_uint64(bignum_umod(%s, bignum_from_uint64(%d)))" % (
+                        arg1, expr.size
+                    )
+                    out = "bignum_%s(%s, %d, %s)" % (
+                        op[expr.op], arg0, expr.size, count
                     )
                     out = "bignum_mask(%s, %d)"% (out, expr.size)
                 return out
